@@ -351,12 +351,12 @@ variable {touches : Nat → Nat → Bool} {p : P} {lo : Nat → Nat}
 
 theorem inv_filterBlock (hi : Inv touches ⟨p, lo⟩) (b : Nat) :
     Inv touches ⟨applyW p (.filterBlock b), lo⟩ := by
-  obtain ⟨hk, hl, hs, hc, hcm, hr⟩ := hi
-  refine ⟨hk, hl, ?_, ?_, hcm, hr⟩
+  obtain ⟨hk, hs, hc, hcm, hr⟩ := hi
+  refine ⟨hk, ?_, ?_, hcm, hr⟩
   · intro e he b' ht h1 h2
     exact List.mem_append_left _ (hs e he b' ht h1 h2)
-  · intro e he b' ht h1 h2
-    rcases hc e he b' ht h1 h2 with h | h
+  · intro e he b' ht h0 h1 h2
+    rcases hc e he b' ht h0 h1 h2 with h | h
     · exact Or.inl (List.mem_append_left _ h)
     · exact Or.inr h
 
@@ -402,10 +402,11 @@ theorem mem_updateBlockNumber {n : Nat} {e' : Nat × Nat}
   · rw [if_neg hn]; exact ⟨rfl, Nat.le_refl _, Nat.le_of_not_lt hn, Or.inl rfl⟩
 
 theorem inv_updateBlockNumber (hi : Inv touches ⟨p, lo⟩) (n : Nat)
-    (h : ∀ e ∈ p.scripts, ∀ b, touches e.1 b = true → e.2 < b → b ≤ n → (e.1, b) ∈ p.indexed) :
+    (h : ∀ e ∈ p.scripts, ∀ b, touches e.1 b = true → lo e.1 < b → e.2 < b → b ≤ n →
+      (e.1, b) ∈ p.indexed) :
     Inv touches ⟨applyW p (.updateBlockNumber n), lo⟩ := by
-  obtain ⟨hk, hl, hs, hc, hcm, hr⟩ := hi
-  refine ⟨?_, ?_, ?_, ?_, ?_, hr⟩
+  obtain ⟨hk, hs, hc, hcm, hr⟩ := hi
+  refine ⟨?_, ?_, ?_, ?_, hr⟩
   · have : ((applyW p (.updateBlockNumber n)).scripts.map (·.1)) = p.scripts.map (·.1) := by
       show (p.scripts.map _).map _ = _
       rw [List.map_map]
@@ -414,11 +415,6 @@ theorem inv_updateBlockNumber (hi : Inv touches ⟨p, lo⟩) (n : Nat)
       by_cases ha : a.2 < n <;> simp [ha]
     show (((applyW p (.updateBlockNumber n)).scripts.map (·.1))).Nodup
     rw [this]; exact hk
-  · intro e' he'
-    obtain ⟨e, he, h1, h2, _, _⟩ := mem_updateBlockNumber he'
-    have := hl e he
-    show lo e'.1 ≤ e'.2
-    rw [h1]; exact Nat.le_trans this h2
   · intro e' he' b ht hlo hb
     obtain ⟨e, he, h1, h2, _, h4⟩ := mem_updateBlockNumber he'
     show (e'.1, b) ∈ p.indexed
@@ -426,28 +422,30 @@ theorem inv_updateBlockNumber (hi : Inv touches ⟨p, lo⟩) (n : Nat)
     have hlo' : lo e.1 < b := by have : lo e'.1 < b := hlo; rwa [h1] at this
     by_cases hbe : b ≤ e.2
     · exact hs e he b ht hlo' hbe
-    · apply h e he b ht (by omega)
+    · apply h e he b ht hlo' (by omega)
       rcases h4 with h4 | h4 <;> omega
-  · intro e' he' b ht hlt hb
+  · intro e' he' b ht hlo hlt hb
     obtain ⟨e, he, h1, h2, _, _⟩ := mem_updateBlockNumber he'
     show (e'.1, b) ∈ p.indexed ∨ pending p b
+    have hlo' : lo e.1 < b := by have : lo e'.1 < b := hlo; rwa [h1] at this
     rw [h1] at ht ⊢
-    exact hc e he b ht (by omega) hb
-  · intro r hr' e' he' b hb1 hb2 ht hlt
+    exact hc e he b ht hlo' (by omega) hb
+  · intro r hr' e' he' b hb1 hb2 ht hlo hlt
     obtain ⟨e, he, h1, h2, _, _⟩ := mem_updateBlockNumber he'
+    have hlo' : lo e.1 < b := by have : lo e'.1 < b := hlo; rwa [h1] at this
     rw [h1] at ht
-    exact hcm r hr' e he b hb1 hb2 ht (by omega)
+    exact hcm r hr' e he b hb1 hb2 ht hlo' (by omega)
 
 theorem inv_delRecord (hi : Inv touches ⟨p, lo⟩) (start : Nat)
-    (h : ∀ e ∈ p.scripts, ∀ b, touches e.1 b = true → e.2 < b → b ≤ p.minF →
+    (h : ∀ e ∈ p.scripts, ∀ b, touches e.1 b = true → lo e.1 < b → e.2 < b → b ≤ p.minF →
       (e.1, b) ∈ p.indexed ∨ ∃ r ∈ p.records, r.start ≠ start ∧ b ∈ r.matched) :
     Inv touches ⟨applyW p (.delRecord start), lo⟩ := by
-  obtain ⟨hk, hl, hs, hc, hcm, hr1, hr2, hr3⟩ := hi
+  obtain ⟨hk, hs, hc, hcm, hr1, hr2, hr3⟩ := hi
   have hmem : ∀ r, r ∈ (applyW p (.delRecord start)).records → r ∈ p.records := by
     intro r hr; exact (List.mem_filter.1 hr).1
-  refine ⟨hk, hl, hs, ?_, ?_, ?_, ?_, ?_⟩
-  · intro e he b ht hlt hb
-    rcases h e he b ht hlt hb with h | ⟨r, hr, hne, hbm⟩
+  refine ⟨hk, hs, ?_, ?_, ?_, ?_, ?_⟩
+  · intro e he b ht hlo hlt hb
+    rcases h e he b ht hlo hlt hb with h | ⟨r, hr, hne, hbm⟩
     · exact Or.inl h
     · refine Or.inr ⟨r, ?_, hbm⟩
       show r ∈ p.records.filter _
@@ -460,26 +458,26 @@ theorem inv_delRecord (hi : Inv touches ⟨p, lo⟩) (start : Nat)
 
 theorem inv_putMinF (hi : Inv touches ⟨p, lo⟩) (n : Nat)
     (h1 : ∀ r ∈ p.records, r.start ≤ n + 1)
-    (h2 : ∀ e ∈ p.scripts, ∀ b, touches e.1 b = true → e.2 < b → p.minF < b → b ≤ n →
-      (e.1, b) ∈ p.indexed ∨ pending p b) :
+    (h2 : ∀ e ∈ p.scripts, ∀ b, touches e.1 b = true → lo e.1 < b → e.2 < b → p.minF < b →
+      b ≤ n → (e.1, b) ∈ p.indexed ∨ pending p b) :
     Inv touches ⟨applyW p (.putMinF n), lo⟩ := by
-  obtain ⟨hk, hl, hs, hc, hcm, hr1, hr2, hr3⟩ := hi
-  refine ⟨hk, hl, hs, ?_, hcm, hr1, hr2, h1⟩
-  intro e he b ht hlt hb
+  obtain ⟨hk, hs, hc, hcm, hr1, hr2, hr3⟩ := hi
+  refine ⟨hk, hs, ?_, hcm, hr1, hr2, h1⟩
+  intro e he b ht hlo hlt hb
   by_cases hbm : b ≤ p.minF
-  · exact hc e he b ht hlt hbm
-  · exact h2 e he b ht hlt (by omega) hb
+  · exact hc e he b ht hlo hlt hbm
+  · exact h2 e he b ht hlo hlt (by omega) hb
 
 theorem inv_putRecord (hi : Inv touches ⟨p, lo⟩) (r : Record)
     (h1 : ∀ b ∈ r.matched, r.start ≤ b ∧ b < r.start + r.count)
     (h2 : r.start = p.minF + 1)
     (h3 : ∀ e ∈ p.scripts, ∀ b, r.start ≤ b → b < r.start + r.count → touches e.1 b = true →
-      e.2 < b → b ∈ r.matched) :
+      lo e.1 < b → e.2 < b → b ∈ r.matched) :
     Inv touches ⟨applyW p (.putRecord r), lo⟩ := by
-  obtain ⟨hk, hl, hs, hc, hcm, hr1, hr2, hr3⟩ := hi
-  refine ⟨hk, hl, hs, ?_, ?_, pairwise_insertRecord r hr1, ?_, ?_⟩
-  · intro e he b ht hlt hb
-    rcases hc e he b ht hlt hb with h | ⟨x, hx, hbx⟩
+  obtain ⟨hk, hs, hc, hcm, hr1, hr2, hr3⟩ := hi
+  refine ⟨hk, hs, ?_, ?_, pairwise_insertRecord r hr1, ?_, ?_⟩
+  · intro e he b ht hlo hlt hb
+    rcases hc e he b ht hlo hlt hb with h | ⟨x, hx, hbx⟩
     · exact Or.inl h
     · refine Or.inr ⟨x, mem_insertRecord_of_ne hx ?_, hbx⟩
       intro heq
@@ -501,12 +499,11 @@ theorem inv_putRecord (hi : Inv touches ⟨p, lo⟩) (r : Record)
 
 theorem inv_setBatch {lo' : Nat → Nat} (S : List (Nat × Nat)) (M : Option Nat)
     (hk : (S.map (·.1)).Nodup)
-    (hlo : ∀ e ∈ S, lo' e.1 ≤ e.2)
     (hsafe : ∀ e ∈ S, ∀ b, touches e.1 b = true → lo' e.1 < b → b ≤ e.2 → (e.1, b) ∈ p.indexed)
     (hcover : ∀ e ∈ S, M.getD p.minF ≤ e.2) :
     Inv touches ⟨applyW p (.setBatch S M), lo'⟩ := by
-  refine ⟨hk, hlo, hsafe, ?_, ?_, List.Pairwise.nil, ?_, ?_⟩
-  · intro e he b _ hlt hb
+  refine ⟨hk, hsafe, ?_, ?_, List.Pairwise.nil, ?_, ?_⟩
+  · intro e he b _ _ hlt hb
     have := hcover e he
     have hb' : b ≤ M.getD p.minF := hb
     omega
@@ -540,11 +537,6 @@ theorem chain_set_all (arg : List (Nat × Nat)) :
       loAfter lo (.set .all arg)⟩ := by
     apply inv_setBatch
     · exact foldl_upsert_keys_nodup arg [] (by simp)
-    · intro e he
-      rcases mem_foldl_upsert arg [] he with h | ⟨_, h⟩
-      · show (lastGiven e.1 arg).getD (lo e.1) ≤ e.2
-        rw [h]; exact Nat.le_refl _
-      · cases h
     · intro e he b _ hlt hb
       rcases mem_foldl_upsert arg [] he with h | ⟨_, h⟩
       · have : (lastGiven e.1 arg).getD (lo e.1) < b := hlt
@@ -611,11 +603,6 @@ theorem inv_set_part_batch (hi : Inv touches ⟨p, lo⟩) (arg : List (Nat × Na
       loAfter lo (.set .part arg)⟩ := by
   apply inv_setBatch
   · exact foldl_upsert_keys_nodup arg _ hi.keys
-  · intro e he
-    show (lastGiven e.1 arg).getD (lo e.1) ≤ e.2
-    rcases mem_foldl_upsert arg _ he with h | ⟨h, he'⟩
-    · rw [h]; exact Nat.le_refl _
-    · rw [h]; exact hi.lo e he'
   · intro e he b ht hlt hb
     have hlt' : (lastGiven e.1 arg).getD (lo e.1) < b := hlt
     rcases mem_foldl_upsert arg _ he with h | ⟨h, he'⟩
@@ -647,7 +634,6 @@ theorem chain_set_del (hi : Inv touches ⟨p, lo⟩) (arg : List (Nat × Nat)) :
     refine ⟨?_, trivial⟩
     apply inv_setBatch
     · exact hi.keys.sublist (List.Sublist.map _ List.filter_sublist)
-    · intro e he; exact hi.lo e (List.mem_filter.1 he).1
     · intro e he; exact hi.safe e (List.mem_filter.1 he).1
     · intro e he
       have : e.2 ∈ (p.scripts.filter (fun e => !(x :: rest).any (·.1 = e.1))).map (·.2) :=
@@ -667,12 +653,12 @@ theorem chain_filters_put (hi : Inv touches ⟨p, lo⟩) {start k : Nat} {matche
     Chain (fun q => Inv touches ⟨q, lo⟩) p
       [.putRecord ⟨start, k, matched⟩, .putMinF (start + k - 1)] := by
   have h1 : Inv touches ⟨applyW p (.putRecord ⟨start, k, matched⟩), lo⟩ :=
-    inv_putRecord hi _ ho1 hstart.symm ho2
+    inv_putRecord hi _ ho1 hstart.symm (fun e he b h1 h2 ht _ hlt => ho2 e he b h1 h2 ht hlt)
   refine ⟨h1, inv_putMinF h1 _ ?_ ?_, trivial⟩
   · intro r hr
     have : r.start ≤ p.minF + 1 := h1.records.2.2 r hr
     omega
-  · intro e he b ht hlt hb1 hb2
+  · intro e he b ht _ hlt hb1 hb2
     have hb1' : p.minF < b := hb1
     exact Or.inr ⟨⟨start, k, matched⟩, self_mem_insertRecord _ _,
       ho2 e he b (by omega) (by omega) ht hlt⟩
@@ -685,9 +671,9 @@ theorem chain_filters_upd (hi : Inv touches ⟨p, lo⟩) {start k : Nat}
       [.updateBlockNumber (start + k - 1), .putMinF (start + k - 1)] := by
   have h1 : Inv touches ⟨applyW p (.updateBlockNumber (start + k - 1)), lo⟩ := by
     apply inv_updateBlockNumber hi
-    intro e he b ht hlt hb
+    intro e he b ht hlo hlt hb
     by_cases hbm : b ≤ p.minF
-    · rcases hi.cover e he b ht hlt hbm with h | ⟨r, hr, _⟩
+    · rcases hi.cover e he b ht hlo hlt hbm with h | ⟨r, hr, _⟩
       · exact h
       · have hr' : r ∈ p.records := hr
         rw [hrec] at hr'; cases hr'
@@ -697,7 +683,7 @@ theorem chain_filters_upd (hi : Inv touches ⟨p, lo⟩) {start k : Nat}
   · intro r hr
     have hr' : r ∈ p.records := hr
     rw [hrec] at hr'; cases hr'
-  · intro e' he' b ht hlt hb1 hb2
+  · intro e' he' b ht _ hlt hb1 hb2
     obtain ⟨e, he, _, _, h3, _⟩ := mem_updateBlockNumber he'
     omega
 
@@ -710,7 +696,7 @@ theorem chain_filters_min (hi : Inv touches ⟨p, lo⟩) {start k : Nat}
   · intro r hr
     have : r.start ≤ p.minF + 1 := hi.records.2.2 r hr
     omega
-  · intro e he b ht hlt hb1 hb2
+  · intro e he b ht _ hlt hb1 hb2
     have := ho2 e he b (by omega) (by omega) ht hlt
     cases this
 
@@ -726,8 +712,8 @@ theorem chain_filters (hi : Inv touches ⟨p, lo⟩) {start k : Nat} {matched : 
     · rename_i hrec
       have hrec' : p.records = [] := List.isEmpty_iff.1 hrec
       refine ⟨inv_updateBlockNumber hi _ ?_, trivial⟩
-      intro e he b ht hlt hb
-      rcases hi.cover e he b ht hlt hb with h | ⟨r, hr, _⟩
+      intro e he b ht hlo hlt hb
+      rcases hi.cover e he b ht hlo hlt hb with h | ⟨r, hr, _⟩
       · exact h
       · have hr' : r ∈ p.records := hr
         rw [hrec'] at hr'; cases hr'
@@ -764,12 +750,12 @@ theorem chain_blocks_tail {p1 : P} {r : Record} {rest : List Record}
   have hrr := hrng r hrmem
   have h2 : Inv touches ⟨applyW p1 (.updateBlockNumber (r.start + r.count - 1)), lo⟩ := by
     apply inv_updateBlockNumber hi1
-    intro e he b ht hlt hb
+    intro e he b ht hlo hlt hb
     rw [e1] at he
     by_cases hrb : r.start ≤ b
-    · exact e5 b (hi.complete r hrmem e he b hrb (by omega) ht hlt) e he
+    · exact e5 b (hi.complete r hrmem e he b hrb (by omega) ht hlo hlt) e he
     · have hst' : r.start ≤ p.minF + 1 := hst r hrmem
-      rcases hi.cover e he b ht hlt (show b ≤ p.minF by omega) with h | ⟨x, hx, hbx⟩
+      rcases hi.cover e he b ht hlo hlt (show b ≤ p.minF by omega) with h | ⟨x, hx, hbx⟩
       · exact e4 _ h
       · exfalso
         have hx0 : x ∈ p.records := hx
@@ -779,8 +765,8 @@ theorem chain_blocks_tail {p1 : P} {r : Record} {rest : List Record}
         · rw [hxr] at h3; omega
         · have := hpw' x hx'; omega
   refine ⟨h2, inv_delRecord h2 _ ?_, trivial⟩
-  intro e' he' b ht hlt hb
-  rcases h2.cover e' he' b ht hlt hb with h | ⟨x, hx, hbx⟩
+  intro e' he' b ht hlo hlt hb
+  rcases h2.cover e' he' b ht hlo hlt hb with h | ⟨x, hx, hbx⟩
   · exact Or.inl h
   · have hx0 : x ∈ p1.records := hx
     rw [e3, hrec] at hx0
@@ -872,7 +858,7 @@ theorem indexed_of_done {touches : Nat → Nat → Bool} {g : G} (hi : Inv touch
     (ht : touches s b = true) (hlo : g.lo s < b) (hb : b ≤ g.p.minF) : (s, b) ∈ g.p.indexed := by
   by_cases hbn : b ≤ n
   · exact hi.safe (s, n) hs b ht hlo hbn
-  · rcases hi.cover (s, n) hs b ht (by show n < b; omega) hb with h | ⟨r, hr, _⟩
+  · rcases hi.cover (s, n) hs b ht hlo (by show n < b; omega) hb with h | ⟨r, hr, _⟩
     · exact h
     · rw [hdone] at hr; cases hr
 
@@ -935,13 +921,12 @@ theorem keys_after_set (p : P) (cmd : Cmd) (arg : List (Nat × Nat))
 /-- script 1 (registered from 0, number 0) waits for block 5 in a record -/
 theorem inv_example_pending :
     Inv (fun s b => s == 1 && b == 5) ⟨⟨[(1, 0)], 10, [⟨1, 10, [5]⟩], []⟩, fun _ => 0⟩ := by
-  refine ⟨by decide, ?_, ?_, ?_, ?_, ?_, ?_, ?_⟩
-  · intro e he; simp at he; subst he; simp
+  refine ⟨by decide, ?_, ?_, ?_, ?_, ?_, ?_⟩
   · intro e he b ht hlo hb; simp at he; subst he; simp at hb hlo; omega
-  · intro e he b ht hlt hb
+  · intro e he b ht _ hlt hb
     simp at he; subst he; simp at ht; subst ht
     exact Or.inr ⟨⟨1, 10, [5]⟩, by simp, by simp⟩
-  · intro r hr e he b h1 h2 ht hlt
+  · intro r hr e he b h1 h2 ht _ hlt
     simp at hr he; subst hr he; simp at ht; subst ht; simp
   · simp
   · intro r hr b hb; simp at hr; subst hr; simp at hb; subst hb; simp
@@ -950,10 +935,9 @@ theorem inv_example_pending :
 /-- script 1 at the filtered number, nothing pending, a block of another script below it -/
 theorem inv_example_idle :
     Inv (fun s b => s == 2 && b == 5) ⟨⟨[(1, 10)], 10, [], []⟩, fun _ => 0⟩ := by
-  refine ⟨by decide, ?_, ?_, ?_, ?_, ?_, ?_, ?_⟩
-  · intro e he; simp at he; subst he; simp
+  refine ⟨by decide, ?_, ?_, ?_, ?_, ?_, ?_⟩
   · intro e he b ht hlo hb; simp at he; subst he; simp at ht
-  · intro e he b ht hlt hb; simp at he; subst he; simp at ht
+  · intro e he b ht _ hlt hb; simp at he; subst he; simp at ht
   · intro r hr; cases hr
   · simp
   · intro r hr; cases hr
